@@ -70,6 +70,12 @@ def gen_edges(uname, timeout=1800):
     if not okline or n == 0:
         raise ToolError("edge generation for universe %s failed" % uname)
     os.rename(ep + ".tmp", ep)
+    for old in os.listdir(WORK):          # drop covers of earlier versions of this universe / spec
+        if old.startswith("edges_%s_" % uname) and os.path.join(WORK, old) != ep:
+            try:
+                os.remove(os.path.join(WORK, old))
+            except OSError:
+                pass
     log("[gen] %s: %d edges in %.1fs" % (uname, n, time.time() - t0))
     return ep
 
